@@ -267,6 +267,22 @@ def run(tier):
                                 f"relative={mx.relative_mass} absolute={mx.absolute_mass}", {"text": txt})
             except Exception as exc:
                 v.violation("C02:mixture-rejected", f"{where}({txt!r}) raises {type(exc).__name__}: {exc}", {"text": txt})
+    # systems: every written percentage / mass is what the component carries (a written 0 % is a written value, not a missing one)
+    for txt, want in (("CCO.|0%|CCC.|40%|CCCC", [(0.0, None), (40.0, None), (60.0, None)]),
+                      ("CCO.|0%|CCC.|1000|", [(0.0, 0.0), (100.0, 1000.0)]),
+                      ("CCO.|0%|CCC.|40%|CCCC.|600|", [(0.0, 0.0), (40.0, 400.0), (60.0, 600.0)]),
+                      ("CCC.|250|CCO.|0.0%|CCCC.|75%|", [(25.0, 250.0), (0.0, 0.0), (75.0, 750.0)]),
+                      ("CCO.|10%|CCC.|40%|CCCC", [(10.0, None), (40.0, None), (50.0, None)])):
+        n_mix += 1
+        try:
+            so = g.System(txt)
+            got = [(mo.mixture.relative_mass, mo.mixture.absolute_mass) for mo in so._molecules]
+            ok_ = len(got) == len(want) and all((gr is not None and abs(gr - wr) < 1e-9) and (wa is None or (ga is not None and abs(ga - wa) < 1e-6))
+                                                for (gr, ga), (wr, wa) in zip(got, want))
+            if not ok_:
+                v.violation("C02:system-mixture-values", f"System({txt!r}) denotes (percent, mass) {want} but the components carry {got}", {"text": txt})
+        except Exception as exc:
+            v.violation("C02:system-rejected", f"System({txt!r}) raises {type(exc).__name__}: {str(exc)[:120]}", {"text": txt})
     # distribution parameters in every float syntax (leading dot, trailing dot, exponents, signs, blanks), alone and inside a molecule
     n_dist = 0
     from gbigsmiles.distribution import get_distribution
